@@ -84,6 +84,14 @@ def mapErr {α} (cls : String) (e : Err) (r : R α) : R α :=
 def strxor (a b : Bytes) : R Bytes :=
   if a.length ≠ b.length then .error (.py "ValueError") else .ok (xorBytes a b)
 
+/-- `b.find(pat)` from offset `i` on: index of the first occurrence of `pat`, −1 when there is none -/
+def findFrom (pat : Bytes) : Bytes → Nat → Int
+  | [], i => if pat.isEmpty then (i : Int) else -1
+  | x :: xs, i => if pat.isPrefixOf (x :: xs) then (i : Int) else findFrom pat xs (i + 1)
+
+/-- `b.find(pat)` -/
+def findI (b pat : Bytes) : Int := findFrom pat b 0
+
 theorem band_ofNat (n m : Nat) : band (n : Int) m = ((n % 2 ^ bitLen m &&& m : Nat) : Int) := by
   unfold band
   have : ((n : Int) % ((2 ^ bitLen m : Nat) : Int)) = ((n % 2 ^ bitLen m : Nat) : Int) := by
